@@ -230,10 +230,10 @@ class DiameterEapRequest(DiameterRequest):
                     # "qos_capability": QosCapabilityAVP, 
                     "visited_network_identifier": VisitedNetworkIdentifierAVP,
                     # "aaa_failure_indication": AaaFailureIndicationAVP,
-                    # "supported_features": SupportedFeaturesAVP,
+                    "supported_features": SupportedFeaturesAVP,
                     "ue_local_ip_address": UeLocalIpAddressAVP,
                     # "oc_supported_features": OcSupportedFeaturesAVP,
-                    # "terminal_information": TerminalInformationAVP,
+                    "terminal_information": TerminalInformationAVP,
                     # "emergency_services": EmergencyServicesAVP,
     }
 
